@@ -231,6 +231,61 @@ Proof.
 Qed.
 Print Assumptions C14_removed_check_by_tags_refuted.
 
+(* ---- the users of the index, call by call (model/TIndex.v, last section): on an index in which
+   nothing is exclusively locked and no count is negative (e.g. any clean index, or any table the
+   end-to-end stream reads between two operations of its single client) ---- *)
+
+(* partition.Service.Write: whatever ends the write (all written, Journals.GetOrCreate failing, the
+   first record refused, the source failing after accepted records) the partition is acquired once
+   and released once: every existing descriptor is what it was, a created partition has count 0 *)
+Theorem C14_user_write : forall ix tag o, unlocked ix -> nonneg ix ->
+  exists ix', u_write ix tag o = Some ix' /\
+    (forall q, q < length ix -> get ix' q = get ix q) /\
+    match find_tag ix tag with
+    | Some _ => length ix' = length ix
+    | None => length ix' = S (length ix) /\ get ix' (length ix) = Some (fresh tag)
+    end.
+Proof. intros ix tag o U N. exact (u_write_ok ix tag o U N). Qed.
+Print Assumptions C14_user_write.
+
+(* cursor.newCursor whose filter cannot be built or whose position cannot be applied: no Release
+   panics, no cursor exists, every descriptor is what it was (each acquired partition released once) *)
+Theorem C14_user_cursor_error : forall ix m o, unlocked ix -> nonneg ix -> o <> CurOk ->
+  exists ix', u_new_cursor ix m o = Some (ix', []) /\ length ix' = length ix /\ forall q, get ix' q = get ix q.
+Proof. intros ix m o U N O. exact (u_new_cursor_err ix m o U N O). Qed.
+Print Assumptions C14_user_cursor_error.
+
+(* a cursor's life: newCursor adds one to the count of each selected partition, close() takes it
+   back: no Release panics and every descriptor is what it was *)
+Theorem C14_user_cursor_life : forall ix m, unlocked ix -> nonneg ix ->
+  exists ix1 srcs ix', u_new_cursor ix m CurOk = Some (ix1, srcs) /\
+    (forall q td, get ix q = Some td -> get ix1 q = Some (add_rd (Z.of_nat (cnt q srcs)) td)) /\
+    u_close ix1 srcs = Some ix' /\ length ix' = length ix /\ forall q, get ix' q = get ix q.
+Proof. intros ix m U N. exact (u_cursor_life ix m U N). Qed.
+Print Assumptions C14_user_cursor_life.
+
+(* the seeded variant C14-6 (position error path: cur.close() and then releaseJournals) breaks it:
+   on an unused partition the second Release panics; with another cursor open on the partition that
+   cursor's acquisition is consumed and a deleter's GetJournalTags + LockExclusively succeed while it
+   is open (with the code's newCursor they fail) *)
+Theorem C14_user_cursor_double_release_refuted :
+  (u_new_cursor_v6 (ixu 0) [0] CurPosErr = None /\ exists ix', u_new_cursor (ixu 0) [0] CurPosErr = Some (ix', [])) /\
+  exists ix' ix'', u_new_cursor_v6 (ixu 1) [0] CurPosErr = Some (ix', []) /\
+    (exists td, get ix' 0 = Some td /\ t_readers td = 0%Z) /\
+    acq_id ix' 0 true = (ix'', AGot 0) /\ snd (lockx ix'' 0) = true /\
+    (exists ix1, u_new_cursor (ixu 1) [0] CurPosErr = Some (ix1, []) /\
+       exists ix2, acq_id ix1 0 true = (ix2, AGot 0) /\ snd (lockx ix2 0) = false).
+Proof. split; [exact v6_panics|exact v6_consumes]. Qed.
+Print Assumptions C14_user_cursor_double_release_refuted.
+
+(* the seeded variant C14-7 (the iterator-failure branch of Write returns without Release): the count
+   stays 1 when the write is over, so LockExclusively of a deleter can never succeed *)
+Theorem C14_user_write_leak_refuted : exists ix' ix'', u_write_v7 (ixu 0) 0 WrMiddleErr = Some ix' /\
+  (exists td, get ix' 0 = Some td /\ t_readers td = 1%Z) /\
+  acq_id ix' 0 true = (ix'', AGot 0) /\ snd (lockx ix'' 0) = false.
+Proof. exact v7_leaks. Qed.
+Print Assumptions C14_user_write_leak_refuted.
+
 (* ---- non-vacuity ---- *)
 
 Definition ix2 : tix := [{| t_tag := 0; t_readers := 0; t_excl := false; t_live := true |};
@@ -281,3 +336,8 @@ Proof.
   split; [vm_compute; reflexivity|]. split; [vm_compute; reflexivity|].
   intros [|[|[|p]]] td; vm_compute; intros E; try discriminate E; try (injection E as <-; split; reflexivity); destruct p; discriminate E.
 Qed.
+
+
+(* the hypotheses of the C14_user_* theorems hold of every clean index *)
+Example ex_users_hyp : unlocked ix2 /\ nonneg ix2.
+Proof. exact (clean_unlocked ix2 ix2_clean). Qed.
